@@ -161,6 +161,11 @@ def run(chk):
                ["CASSLGF", "CASSLGLGF", "CASSLGGF"], ["CC", "C", "CCC"]):
         for k in (1, 2):
             add("shared-affixes", [x.replace("B", "D") for x in xs], k, comp=rng.choice([1, 2]))
+    # the documented default radius (max_edits omitted) is 1, for every engine
+    for xs in (["CASSLGF", "CASSLGY", "CASSLG", "CQSSLGF"], ["AC", "AD", "A", "ACD"]):
+        sop_d = {"op": "brute_self", "xs": xs, "k": 1, "mode": "lev"}
+        b.add("hash_based|default-max_edits", lambda xs=xs: nn.hash_based(xs), None, sop_d, {"xs": xs, "k": "default"})
+        b.add("kdtree|default-max_edits", lambda xs=xs: nn.kdtree(xs), None, sop_d, {"xs": xs, "k": "default"})
     for xs, k in boundary:
         for comp in (1, 2, 5):
             add("boundary", xs, k, comp=comp, engines=("kdtree",) if k > 2 else ("hash_based", "kdtree"))
